@@ -36,6 +36,8 @@ type specEnv struct {
 	witEnv   *specEnv // where call-site witnesses are evaluated (the caller), nil: this environment
 	fns      map[string]func(arg *Term) *Term
 	fnRes    map[string]types.Type
+	witSort  Sort     // result sort of the ghost function whose witness is being evaluated
+	qfacts   *[]*Term // memory-model facts about references read under the innermost goal-position forall
 }
 
 func (f *Frame) specEnv(cur, old *State) *specEnv {
@@ -242,10 +244,61 @@ func (se *specEnv) ident(name string) SVal {
 		}
 	}
 	// package-level constants
-	if pkg := se.pkg(); pkg != nil {
+	for _, pkg := range se.pkgs() {
 		if obj := pkg.Scope().Lookup(name); obj != nil {
 			if c, ok := obj.(*types.Const); ok {
 				return se.constVal(c)
+			}
+		}
+	}
+	if name == "$outer" {
+		// the range index of the (unique) loop of an enclosing activation that is being executed
+		for pf := f.parent; pf != nil; pf = pf.parent {
+			var found Val
+			n := 0
+			for _, b := range pf.fn.Blocks {
+				for _, in := range b.Instrs {
+					if ph, ok := in.(*ssa.Phi); ok && ph.Comment == "rangeindex" {
+						if v, ok := pf.vals[ph]; ok {
+							found = v
+							n++
+						}
+					}
+				}
+			}
+			if n == 1 {
+				return SVal{found, types.Typ[types.Int]}
+			}
+			if n > 1 {
+				sfail("$outer is ambiguous: several range loops in %s", funcKey(pf.fn))
+			}
+		}
+		sfail("$outer: no enclosing activation is inside a range loop")
+	}
+	// an inlined activation: parameters, captured variables and ghosts of the enclosing activations
+	for pf := f.parent; pf != nil; pf = pf.parent {
+		if v, ok := pf.ghosts[name]; ok {
+			return v
+		}
+		for _, p := range pf.fn.Params {
+			if p.Name() == name {
+				return SVal{pf.get(p), pf.subst(p.Type())}
+			}
+		}
+		for _, p := range pf.fn.FreeVars {
+			if p.Name() == name {
+				l := pf.asLoc(pf.get(p), p.Type())
+				return SVal{pf.load(se.cur, l), pf.subst(derefT(p.Type()))}
+			}
+		}
+		for _, b := range pf.fn.Blocks {
+			for _, in := range b.Instrs {
+				if a, ok := in.(*ssa.Alloc); ok && a.Comment == name {
+					if av, ok := pf.vals[a]; ok {
+						l := pf.asLoc(av, a.Type())
+						return SVal{pf.load(se.cur, l), pf.subst(derefT(a.Type()))}
+					}
+				}
 			}
 		}
 	}
@@ -320,6 +373,23 @@ func (se *specEnv) importedConst(pkgName, name string) *types.Const {
 		}
 	}
 	return nil
+}
+
+// pkgs: the package of this activation's function, then those of the enclosing activations (an
+// invariant supplied by the caller's contract for an inlined loop is written in the caller's vocabulary).
+func (se *specEnv) pkgs() []*types.Package {
+	var out []*types.Package
+	if p := se.pkg(); p != nil {
+		out = append(out, p)
+	}
+	for pf := se.f.parent; pf != nil; pf = pf.parent {
+		n := *se
+		n.f = pf
+		if p := n.pkg(); p != nil {
+			out = append(out, p)
+		}
+	}
+	return out
 }
 
 func (se *specEnv) pkg() *types.Package {
@@ -512,7 +582,11 @@ func (se *specEnv) field(x SVal, name string, e *SExpr) SVal {
 		if i < 0 {
 			sfail("no field %s in %s (%s)", name, t, e)
 		}
-		return SVal{si.Get(f.asTerm(x.V), i), st.Field(i).Type()}
+		fv := si.Get(f.asTerm(x.V), i)
+		if se.qfacts != nil {
+			se.refInvBound(fv, st.Field(i).Type())
+		}
+		return SVal{fv, st.Field(i).Type()}
 	}
 	sfail("field access on %s in %s", t, e)
 	return SVal{}
@@ -525,7 +599,8 @@ func (se *specEnv) refInv(v *Term, t types.Type) {
 	}
 	for _, b := range se.binders {
 		if containsAtom(v, b.Op) {
-			return // mentions a bound variable
+			se.boundRefFact(v, t) // mentions a bound variable: the fact goes under the quantifier
+			return
 		}
 	}
 	for _, sv := range se.vars {
@@ -537,6 +612,56 @@ func (se *specEnv) refInv(v *Term, t types.Type) {
 	case *types.Pointer, *types.Map, *types.Slice:
 		se.f.assumeWf(se.cur, v, t)
 	}
+}
+
+// refInvBound: boundRefFact for values that mention a binder in scope.
+func (se *specEnv) refInvBound(v *Term, t types.Type) {
+	for _, b := range se.binders {
+		if containsAtom(v, b.Op) {
+			se.boundRefFact(v, t)
+			return
+		}
+	}
+}
+
+// boundRefFact: a reference read under goal-position binders is allocated in the state it was read
+// from (in the entry state when it was read out of the entry heap). Collected by the enclosing forall.
+func (se *specEnv) boundRefFact(v *Term, t types.Type) {
+	if se.qfacts == nil || v.size > 40 {
+		return
+	}
+	f := se.f
+	st := se.cur
+	if top := f.top(); top.entry != nil && isEntryTermB(v) {
+		st = top.entry
+	}
+	switch f.subst(t).Underlying().(type) {
+	case *types.Pointer, *types.Map:
+		*se.qfacts = append(*se.qfacts, And(Le(IntLit(0), v), Lt(v, st.alloc)))
+	case *types.Slice:
+		b := SlcBase(v)
+		*se.qfacts = append(*se.qfacts, And(Le(IntLit(0), b), Lt(b, st.alloc), Le(IntLit(0), SlcOff(v)), Le(IntLit(0), SlcLen(v)), Le(SlcLen(v), SlcCap(v)), Implies(Eq(b, IntLit(0)), Eq(SlcCap(v), IntLit(0)))))
+	}
+}
+
+// isEntryTermB: isEntryTerm, with bound variables allowed as indices.
+func isEntryTermB(t *Term) bool {
+	if t.IsAtom() && strings.Contains(t.Op, "!q") {
+		return true
+	}
+	if t.IsAtom() {
+		return isEntryTerm(t)
+	}
+	switch {
+	case t.Op == "select", t.Op == "slot", t.Op == "+", t.Op == "-", strings.HasPrefix(t.Op, "Slc!"), strings.HasPrefix(strings.Trim(t.Op, "|"), "S!"):
+		for _, a := range t.Args {
+			if !isEntryTermB(a) {
+				return false
+			}
+		}
+		return true
+	}
+	return false
 }
 
 func (se *specEnv) index(x, i SVal, e *SExpr) SVal {
@@ -554,7 +679,11 @@ func (se *specEnv) index(x, i SVal, e *SExpr) SVal {
 		s := f.asTerm(x.V)
 		es := f.sortOf(u.Elem())
 		E := f.ctx.comp(se.cur, f.eName(u.Elem()), ArrS(SInt, ArrS(SInt, es)))
-		return SVal{Select(Select(E, SlcBase(s)), Slot(SlcOff(s), f.asTerm(i.V))), u.Elem()}
+		ev := Select(Select(E, SlcBase(s)), Slot(SlcOff(s), f.asTerm(i.V)))
+		if se.qfacts != nil {
+			se.refInvBound(ev, u.Elem())
+		}
+		return SVal{ev, u.Elem()}
 	case *types.Map:
 		val, _ := f.mapRead(se.cur, u, f.asTerm(x.V), se.coerce(i, u.Key()))
 		return SVal{val, u.Elem()}
@@ -672,6 +801,18 @@ func (se *specEnv) call(e *SExpr) SVal {
 		} else if site == "pre" && se.presite != "" {
 			site = se.presite
 		}
+		if site == "last" {
+			// the most recently introduced skolem function with this label and arity
+			sks := f.ctx.skolems[label]
+			for i := len(sks) - 1; i >= 0; i-- {
+				if sk := sks[i]; len(sk.sorts) == len(args) {
+					if len(args) == 0 {
+						return SVal{Atom(sk.name, sk.res), nil}
+					}
+					return SVal{App(sk.name, sk.res, args...), nil}
+				}
+			}
+		}
 		for _, sk := range f.ctx.skolems[label] {
 			if sk.site == site && len(sk.sorts) == len(args) {
 				if len(args) == 0 {
@@ -679,6 +820,16 @@ func (se *specEnv) call(e *SExpr) SVal {
 				}
 				return SVal{App(sk.name, sk.res, args...), nil}
 			}
+		}
+		if se.witSort != "" {
+			// inside a witness (e.g. a loop invariant checked on entry, before the loop-head skolem
+			// exists): any function will do as a candidate - an uninterpreted one
+			var sorts []Sort
+			for _, a := range args {
+				sorts = append(sorts, a.S)
+			}
+			name := f.ctx.declFun(fmt.Sprintf("sk!%s!none!%d", label, len(args)), sorts, se.witSort)
+			return SVal{App(name, se.witSort, args...), nil}
 		}
 		sfail("no skolem function %s@%s", label, site)
 	case "call":
@@ -747,12 +898,15 @@ func (se *specEnv) call(e *SExpr) SVal {
 		n.vars[p] = args[i]
 	}
 	n.lenv = nil
+	if n.witEnv == nil {
+		n.witEnv = se // witnesses are written in the vocabulary of the clause that uses the spec function
+	}
 	return n.eval(sf.Body)
 }
 
 func (se *specEnv) lookupSpecFunc(name string) *SpecFunc {
 	cs := se.f.ctx.eng.contracts
-	if pkg := se.pkg(); pkg != nil {
+	for _, pkg := range se.pkgs() {
 		if sf, ok := cs.SpecFuncs[pkgID(pkg)+"."+name]; ok {
 			return sf
 		}
@@ -851,6 +1005,9 @@ func (se *specEnv) quant(e *SExpr) SVal {
 		if se.pol < 0 {
 			// goal-position forall: binders are not available to skolem functions of nested assumed exists
 		}
+		if se.pol != 0 {
+			n.qfacts = &[]*Term{}
+		}
 		body := n.evalKeepPol(e.Args[0])
 		var pats [][]*Term
 		if len(e.Trigger) > 0 {
@@ -861,6 +1018,12 @@ func (se *specEnv) quant(e *SExpr) SVal {
 			pats = [][]*Term{p}
 		} else {
 			pats = inferPatterns(bound, body)
+		}
+		if se.pol < 0 && len(*n.qfacts) > 0 {
+			body = Implies(And(*n.qfacts...), body)
+		} else if se.pol > 0 && len(*n.qfacts) > 0 {
+			// assumed: the same model invariant, stated for the state the quantified fact is about
+			body = And(body, And(*n.qfacts...))
 		}
 		return SVal{Forall(bound, body, pats...), tb}
 	}
@@ -910,7 +1073,21 @@ func (se *specEnv) quant(e *SExpr) SVal {
 		}
 		if we, ok := se.wit[e.Label]; ok && e.Label != "" && len(bound) == 1 {
 			w := n.fork()
-			wv := se.withPol(0, func() SVal { return se.eval(we) })
+			// the witness is written in the vocabulary of the clause (not of a spec function being
+			// expanded), with the binders in scope visible
+			wenv := se
+			if se.witEnv != nil {
+				wenv = se.witEnv.fork()
+				for k, v := range se.vars {
+					if _, dup := wenv.vars[k]; !dup {
+						wenv.vars[k] = v
+					}
+				}
+			} else {
+				wenv = se.fork()
+			}
+			wenv.witSort = bound[0].S
+			wv := wenv.withPol(0, func() SVal { return wenv.eval(we) })
 			w.vars[e.Binders[0].Name] = SVal{wv.V, n.vars[e.Binders[0].Name].T}
 			w.pol = se.pol
 			disj = append(disj, w.evalKeepPol(e.Args[0]))
@@ -1001,6 +1178,7 @@ func (se *specEnv) existsFn(e *SExpr) SVal {
 				w := outerSe.fork()
 				w.vars[pname] = SVal{a, at}
 				w.pol = 0
+				w.witSort = rs
 				return w.term(we)
 			})
 			disj = append(disj, n.evalKeepPol(e.Args[0]))
